@@ -116,6 +116,7 @@ func footprintsThrough(all map[*ssa.Function]*eng.StrideInfo, fn *ssa.Function, 
 }
 
 func c11(p *core.Program, r *core.Report) {
+	orientationPredicateRules(p, r)
 	strideRule(p, r, "stride-discipline", []strideTarget{
 		{"xy/internal/raycrossing", "LocatePointInRing", "xy"},
 		{"xy/internal/raycrossing", "(*rayCrossingCounter).countSegment", "xy"},
@@ -462,6 +463,7 @@ func topLevel(f *ssa.Function) *ssa.Function {
 }
 
 func c13(p *core.Program, r *core.Report) {
+	hullIdentityPlanarRule(p, r, "hull-identity-planar")
 	m := modref(p, r)
 	const r1 = "hull-input-unmodified"
 	r.Rule(r1, "no write instruction reachable from xy.ConvexHull / xy.ConvexHullFlat targets memory reachable from the argument (the sort, swap and stack operations work on copies)", 2)
@@ -692,6 +694,7 @@ func c14(p *core.Program, r *core.Report) {
 	}, 6)
 
 	zeroAreaFallbackRule(p, r, "zero-area-fallback-exact")
+	centroidFrameRule(p, r, "centroid-frame-consistent")
 	ringSignRule(p, r, "shell-hole-polarity")
 	r.Assume("every numerical statement (weighted means, fall-back to the linear centroid, sign of the area) is not decided")
 }
@@ -1130,5 +1133,84 @@ func reduceKeepsCandidatesRule(p *core.Program, r *core.Report, rule string) {
 		n++
 		o := origin(ret.Results[0], 0)
 		r.Check(o == "input" || o == "set", rule, fmt.Sprintf("%s/return#%d", short(fn), n), p.Pos(ret.Pos()), true, "returns "+o, "the candidates returned at "+p.Pos(ret.Pos())+" come from "+o+", not from the input or from the set that received every untested input point: points that were never compared with the octagon are discarded")
+	}
+}
+
+// hullIdentityPlanarRule (C13): which input points are "the same point" is decided in the plane. The comparators
+// handed to the de-duplicating containers (transform.UniqueCoords, transform.NewTreeSet) by the hull code, and the
+// module functions they call, read ordinates 0 and 1 of their coordinates only: the Graham scan assumes that the
+// points that survive de-duplication are pairwise distinct in XY (two points equal in XY but different in Z/M are
+// collinear with everything, can never be popped, and make a point set with one XY position a "polygon").
+func hullIdentityPlanarRule(p *core.Program, r *core.Report, rule string) {
+	r.Rule(rule, "the implementations of transform.Compare that package xy hands to the de-duplicating containers (found through the MakeInterface conversions in the package), and the module functions they call (two levels), index their coordinate arguments with ordinates 0 and 1 only (STRIDE: offset 0 or 1 from a coordinate start, no loop over all ordinates, nothing unclassified): points are duplicates of each other when they coincide in the plane, whatever their Z/M", 2)
+	all := strideInfo(p)
+	var methods []*ssa.Function
+	seenT := map[string]bool{}
+	for _, fn := range pkgFuncs(p, "xy") {
+		for _, b := range fn.Blocks {
+			for _, in := range b.Instrs {
+				mi, ok := in.(*ssa.MakeInterface)
+				if !ok || namedTypeName(mi.Type()) != "Compare" {
+					continue
+				}
+				tq := namedTypeQual(mi.X.Type())
+				if seenT[tq] {
+					continue
+				}
+				seenT[tq] = true
+				ms := p.SSA.MethodSets.MethodSet(mi.X.Type())
+				for i := 0; i < ms.Len(); i++ {
+					if f := p.SSA.MethodValue(ms.At(i)); f != nil && core.InModule(f) && len(f.Blocks) > 0 {
+						methods = append(methods, f)
+					}
+				}
+			}
+		}
+	}
+	if len(methods) == 0 {
+		r.Lost(rule, "xy/compare-implementations", "package xy no longer hands a transform.Compare implementation to a container")
+		return
+	}
+	for _, m := range methods {
+		set := []*ssa.Function{m}
+		seen := map[*ssa.Function]bool{m: true}
+		for d, frontier := 0, []*ssa.Function{m}; d < 2; d++ {
+			var next []*ssa.Function
+			for _, f := range frontier {
+				for _, c := range eng.Calls(f) {
+					if g := eng.StaticCallee(c); g != nil && core.InModule(g) && len(g.Blocks) > 0 && !seen[g] {
+						seen[g] = true
+						set = append(set, g)
+						next = append(next, g)
+					}
+				}
+			}
+			frontier = next
+		}
+		bad := ""
+		nsites := 0
+		for _, f := range set {
+			si := all[f]
+			if si == nil {
+				continue
+			}
+			for _, s := range si.Sites {
+				v := s.Val
+				if v.Bot || s.What != "index" {
+					continue
+				}
+				nsites++
+				pos := p.Pos(s.Instr.Pos())
+				switch {
+				case v.Top:
+					bad = fmt.Sprintf("%s indexes a coordinate at %s with a value that is not a fixed ordinate (a loop over the ordinates beyond X and Y)", short(f), pos)
+				case v.E || v.K:
+					bad = fmt.Sprintf("%s walks every ordinate of a coordinate at %s", short(f), pos)
+				case v.C < 0 || v.C+v.W > 1:
+					bad = fmt.Sprintf("%s reads ordinate %d (up to %d) of a coordinate at %s: Z/M take part in deciding whether two points are the same", short(f), v.C, v.C+v.W, pos)
+				}
+			}
+		}
+		r.Check(bad == "", rule, short(m), p.Pos(m.Pos()), true, fmt.Sprintf("%d functions, %d index sites, all on ordinates 0/1", len(set), nsites), bad)
 	}
 }
